@@ -5,7 +5,7 @@ id="$1"; lid=$(echo "$id" | tr 'A-Z' 'a-z'); wt=/tmp/wt-$id
 cd "$wt" || exit 2
 export RUSTUP_TOOLCHAIN=1.88.0 CARGO_NET_OFFLINE=true
 echo "## $id: diff vs patch.diff"
-git diff -- chitchat/src ':!chitchat/src/lib.rs' ':!chitchat/src/demo_*' | grep '^[+-][^+-]' > /tmp/.d1-$id; grep '^[+-][^+-]' patch.diff > /tmp/.d2-$id
+git diff -- chitchat/src ':!chitchat/src/demo_*' | grep '^[+-][^+-]' | grep -v 'mod demo_' | grep -v '^+#\[cfg(test)\]$' > /tmp/.d1-$id; grep '^[+-][^+-]' patch.diff > /tmp/.d2-$id
 if diff -q /tmp/.d1-$id /tmp/.d2-$id >/dev/null; then echo "worktree change == patch.diff"; else echo "MISMATCH between worktree and patch.diff"; diff /tmp/.d1-$id /tmp/.d2-$id | head; fi
 echo "## $id: full suite WITH the change"
 cargo test --offline -p chitchat --no-fail-fast 2>&1 | grep -E "^test result|^test .* FAILED|panicked at" | sort | uniq -c | head -30
